@@ -357,7 +357,7 @@ func dstTree(pl *refgen.Planner, t types.Type, inherited *types.Package, path st
 		if path != "" {
 			p = path + "." + f.Name()
 		}
-		df := &dstField{Path: p, Type: f.Type(), Accessible: ast.IsExported(f.Name()) || owner == nil || owner.Path() == pl.Pkg.Path()}
+		df := &dstField{Path: p, Type: f.Type(), Accessible: f.Name() != "_" && (ast.IsExported(f.Name()) || owner == nil || owner.Path() == pl.Pkg.Path())}
 		if _, isPtr := f.Type().(*types.Pointer); !isPtr {
 			if _, isStruct := f.Type().Underlying().(*types.Struct); isStruct {
 				df.Children = dstTree(pl, f.Type(), owner, p, depth+1)
